@@ -56,6 +56,7 @@ func runC04(p *Program, r *Report) {
 	c04adapters(p, r, "C04.adapters")
 	c03hdr(p, r, "C04.hdr")
 	c04state(p, r, "C04.state")
+	cClosers(p, r, "C04.closers")
 }
 
 func c04eom(p *Program, r *Report, rule string) {
